@@ -19,11 +19,15 @@ RULE = ("(a) every fault site (C12 matrix + list/tuple/number given to String an
         "lists nested to 6; (c) CSV faults: empty file, header only, ragged rows, non-numeric cells, missing column, duplicate "
         "headers, quoted newlines, NUL bytes, non-UTF-8 bytes, 1 MB field, nan/inf/1e400 cells; (d) open() raising at the n-th call; "
         "(e) mismatched shapes / weights / empty lists; distinct by (class, fault/edit kind, command, outcome class)")
-REQUIRED_COUNTERS = ["boundary_outcomes_recorded", "mpilot_errors_seen", "cli_runs_checked", "error_messages_rendered", "io_faults_injected", "csv_faults_run", "text_corruptions_run", "cli_subprocess_runs", "netcdf_faults_run"]
+REQUIRED_COUNTERS = ["boundary_outcomes_recorded", "mpilot_errors_seen", "cli_runs_checked", "error_messages_rendered", "io_faults_injected", "csv_faults_run", "text_corruptions_run", "cli_subprocess_runs", "netcdf_faults_run", "api_built_fault_models"]
 ASSUMPTIONS = ["SyntaxError vs MPilotError for malformed text: either is allowed", "command files that are not valid UTF-8, KeyboardInterrupt and MemoryError are out of scope",
                "the CLI's behaviour for SyntaxError is not specified by the property and not judged"]
 
+NONFINITE = [("inf-text", faults.WORD("inf"), "inf"), ("nan-text", faults.WORD("nan"), "nan"), ("neg-inf-text", faults.QSTR("-inf"), "-inf"), ("infinity-text", faults.WORD("Infinity"), "Infinity"),
+             ("huge-literal", {"t": "float", "v": float("inf"), "text": "1e999"}, float("inf"))]
 EXTRA_WRONG = {
+    "number": NONFINITE,
+    "list:number": [("nonfinite-item", faults.LIST([faults.INT(1), faults.WORD("nan")]), [1, "nan"]), ("inf-item", faults.LIST([faults.WORD("inf")]), ["inf"])],
     "string": [("list", faults.LIST([faults.INT(1), faults.WORD("a")]), [1, "a"]), ("tuple", faults.TUPLE("a", faults.WORD("b")), {"a": "b"}), ("number", faults.INT(7), 7)],
     "path": [("list", faults.LIST([faults.WORD("a")]), ["a"]), ("tuple", faults.TUPLE("a", faults.WORD("b")), {"a": "b"}), ("number", faults.INT(7), 7), ("float", faults.FLOAT(1.5), 1.5)],
 }
@@ -132,13 +136,13 @@ def _edit(rng, text):
 class _Boundary(object):
     """Runs load + run and records what escaped."""
 
-    def __init__(self, text, d, libs=arr.CSV_LIBS):
+    def __init__(self, text, d, libs=arr.CSV_LIBS, api_model=None):
         from mpilot.program import Program
         self.exc = None
         self.stage = "done"
         try:
             self.stage = "load"
-            prog = Program.from_source(text, libraries=libs, working_dir=d)
+            prog = Program.from_source(text, libraries=libs, working_dir=d) if api_model is None else models.build_api(api_model, d, libs)
             self.stage = "run"
             prog.run()
             self.stage = "done"
@@ -268,9 +272,13 @@ def run_fault(ctx, case):
     text, _ = models.to_text(m)
     tag = "fault:%s:%s" % (exp["fault"], exp.get("variant") or exp.get("declared") or "-")
     ctx.feature(("fault", exp["fault"], exp["cmd"], exp.get("param"), exp.get("variant")))
-    b = _Boundary(text, d)
-    detail = {"text": text[:1200], "expect": {k: v for k, v in exp.items() if k in ("fault", "cmd", "param", "variant")}}
-    if _classify(ctx, b, tag, detail) and case.get("cli"):
+    api = case["rseed"] % 3 == 1 and exp["fault"] != "unknown-command"
+    if api:
+        ctx.count("api_built_fault_models")
+        tag = "api-" + tag
+    b = _Boundary(text, d, api_model=m if api else None)
+    detail = {"text": text[:1200], "expect": {k: v for k, v in exp.items() if k in ("fault", "cmd", "param", "variant")}, "built_through": "add_command" if api else "from_source"}
+    if _classify(ctx, b, tag, detail) and case.get("cli") and not api:
         d2 = ctx.scratch()
         models.write_table(m["table"], d2)
         _cli(ctx, text, d2, tag, detail, api_exc=b.exc, api_dir=d)
